@@ -50,6 +50,8 @@ ExtDirectlyExcluded(j) ==
 CfgOf(j) == [mpath |-> j.mpath, excluded |-> DirectlyExcluded(j), limit |-> j.limit, ext |-> j.ext,
              extexcl |-> ExtDirectlyExcluded(j)]
 ObsOf(j) == [modules |-> SeqToSet(j.modules), imports |-> PairSet(j.imports)]
+\* parent/child pairs among a set of names
+NameTree(M) == {<<SubSeq(m, 1, Len(m) - 1), m>> : m \in {m \in M : Len(m) > 1}}
 
 Expected(P, c) ==
     LET n == KeepLen(c)
@@ -83,6 +85,14 @@ ScanFails(j, P) ==
     IF c.mpath \notin P.dirs THEN {<<"MACHINERY", "module-path-not-a-directory-of-the-project", "">>}
     ELSE IF j.out # "ok" THEN {<<"C04", "scan-raised-an-error", j.err>>}
     ELSE
+      \* the hierarchy the architecture holds is the parent/child relation of its module names (C04; under a level
+      \* limit C09: the quotient is an architecture like any other)
+      (IF "hier" \notin DOMAIN j \/ PairSet(j.hier) = NameTree(obs.modules) THEN {}
+       ELSE IF c.limit # 0 THEN {<<"C09", "hierarchy-of-level-limited-architecture-differs-from-its-names",
+                                   [lost |-> NameTree(obs.modules) \ PairSet(j.hier), extra |-> PairSet(j.hier) \ NameTree(obs.modules)]>>}
+       ELSE {<<"C04", "hierarchy-differs-from-the-module-names",
+               [lost |-> NameTree(obs.modules) \ PairSet(j.hier), extra |-> PairSet(j.hier) \ NameTree(obs.modules)]>>})
+      \cup
       (IF missM = {} THEN {}
        ELSE IF \E m \in missM : m \notin exp.internal THEN {<<"C10", "external-module-or-ancestor-missing", missM>>}
        ELSE IF c.limit # 0 THEN {<<"C09", "module-missing-under-level-limit", missM>>}
